@@ -3,10 +3,12 @@
   the model's observation in the same canonical form as the C harness.
 -/
 import Xc.D0
+import Xc.Config
 
 namespace Xc
 
 structure DriverState where
+  cfg : Config := Config.tree
   osBytes : Bytes := []
   objs : List (Nat × DataObj) := []
   static : DataObj := { out := some [], scratchZero := true }
@@ -50,7 +52,7 @@ def osFrom (bs : Bytes) : Nat → Bytes := fun k => (List.range k).map fun i => 
 def opGensalt (st : DriverState) (entry pfx count rb nrb osz : String) : String :=
   match argBytes pfx, count.toNat?, argBytes rb, nrb.toInt?, osz.toInt? with
   | some pfx, some count, some rb, some nrb, some osz =>
-    let cfg := Config.tree
+    let cfg := st.cfg
     let r : GRes :=
       if entry == "rn" then gensaltRn cfg pfx count rb nrb osz (osFrom st.osBytes)
       else if entry == "ra" then gensaltRa cfg pfx count rb nrb true (osFrom st.osBytes)
@@ -62,15 +64,15 @@ def opGensalt (st : DriverState) (entry pfx count rb nrb osz : String) : String 
     s!"ret={ret} errno={showErr r.errno} buf={buf} ext={r.ext} abort={if r.aborted then 1 else 0}"
   | _, _, _, _, _ => "bad-op"
 
-def opChecksalt (s : String) : String :=
+def opChecksalt (cfg : Config) (s : String) : String :=
   match argBytes s with
-  | some s => s!"status={(checksalt Config.tree.table s).code}"
+  | some s => s!"status={(checksalt cfg.table s).code}"
   | none => "bad-op"
 
-def opChecksaltEnum (s : String) : String :=
+def opChecksaltEnum (cfg : Config) (s : String) : String :=
   match argBytes s with
   | some (some p) =>
-    let tbl := Config.tree.table
+    let tbl := cfg.table
     let (c0, c1, c3, cx, h) := (List.range 255).foldl (fun (acc : Nat × Nat × Nat × Nat × Nat) i =>
       let b := i + 1
       let st := (checksalt tbl (some (p ++ [b.toUInt8]))).code
@@ -80,8 +82,8 @@ def opChecksaltEnum (s : String) : String :=
     s!"n0={c0} n1={c1} n3={c3} nx={cx} h={h}"
   | _ => "bad-op"
 
-def opPreferred : String :=
-  match preferredMethod Config.tree.dflt with
+def opPreferred (cfg : Config) : String :=
+  match preferredMethod cfg.dflt with
   | none => "pref=NULL"
   | some p => s!"pref={showBytes p}"
 
@@ -160,7 +162,7 @@ def opCrypt (st : DriverState) (entry id phrase setting : String) (size : Option
   match id.toNat?, argBytes phrase, argBytes setting with
   | some id, some p, some s =>
     let id := id % 8
-    let cfg := Config.tree
+    let cfg := st.cfg
     let tokens := Gen.ENABLE_FAILURE_TOKENS_ == 1
     if entry == "st" then
       let (d, o) := cryptR cfg D0 tokens p s st.static
@@ -218,8 +220,12 @@ def opDesBlock (k salt count b dec : String) : String :=
 def stepOp (st : DriverState) (toks : List String) : DriverState × String :=
   match toks with
   | ["G", entry, pfx, count, rb, nrb, osz] => (st, opGensalt st entry pfx count rb nrb osz)
-  | ["K", s] => (st, opChecksalt s)
-  | ["KE", s] => (st, opChecksaltEnum s)
+  | ["K", s] => (st, opChecksalt st.cfg s)
+  | ["KE", s] => (st, opChecksaltEnum st.cfg s)
+  | ["CFG", ms] =>
+    let names := ms.splitOn ","
+    let en : Method → Bool := fun m => names.contains m.name
+    ({ st with cfg := mkConfig Gen.hashesConf en }, "ok")
   | "SK" :: k :: _ => (match (argBytes k).bind id with | some k => ({ st with desStatic := opSetkey k }, "ok") | none => (st, "bad-op"))
   | "SKR" :: ids :: k :: _ =>
     (match ids.toNat?, (argBytes k).bind (fun x => x) with
@@ -247,13 +253,13 @@ def stepOp (st : DriverState) (toks : List String) : DriverState × String :=
   | "CC" :: _ :: _ :: p :: s :: _ =>
     (match argBytes p, argBytes s with
      | some p, some s =>
-       let (c, m) := costOf Config.tree s
+       let (c, m) := costOf st.cfg s
        let pl := match p with | some p => p.length | none => 0
        (st, s!"cost={c * (1 + pl / 48)} mem={m}")
      | _, _ => (st, "bad-op"))
   | ["C", entry, id, p, s] => opCrypt st entry id p s none
   | ["C", entry, id, p, s, sz] => opCrypt st entry id p s (some sz)
-  | ["P"] => (st, opPreferred)
+  | ["P"] => (st, opPreferred st.cfg)
   | ["OS", b] =>
     match argBytes b with
     | some (some bs) => ({ st with osBytes := bs }, "ok")
